@@ -244,7 +244,10 @@ CHECKS = {
           "under the six symmetrisations, the three window types of the "
           "instance method, exchange of variables, and value / quantile event "
           "extraction: independent Python references only (partial); ES <= 1 "
-          "is checked, not proved.",
+          "is checked, not proved. The statements of event_synchronization (distance and "
+          "delay arrays, the two coincidence conditions as Gallina, the "
+          "double-count loops, counts and norm) are regenerated from "
+          "event_series.py on every run and proved equal to the model's.",
   "design_ref": "DESIGN.md section 5, C16",
   "note": "trusted: integer time stamps (float comparisons are exact on "
           "them); counts recovered from the float outputs by multiplying with "
@@ -294,7 +297,10 @@ CHECKS = {
           "With the library's own random numbers: degrees, cross degrees, "
           "internal blocks, link-length drift, degree pairs (model III), "
           "prescribed link counts (cross-link setting, Barabasi-Albert, "
-          "Erdos-Renyi), degree bounds (Configuration), simplicity.",
+          "Erdos-Renyi), degree bounds (Configuration), simplicity. The cross-link rewiring kernel (draws, rejection "
+          "condition as Gallina, cleared and set cells, update of the link "
+          "list) is regenerated from numerics.pyx on every run; a step of the "
+          "model is a retry exactly when the generated condition holds.",
   "design_ref": "DESIGN.md section 5, C17",
   "note": "trusted: that the picked edge-list entries are links of the "
           "current matrix is a hypothesis of the step theorems (maintained by "
